@@ -15,6 +15,13 @@
 //   (a)+(b): coherent after ANY sequence of calls (induction on the length of the history, on paper);
 //   then (c): call by call the cached document answers like the uncached one, whatever came before.
 //
+// BASELINE: /repo + findings/stream_cache_key_ignores_filters_fix.diff + findings/cached_error_served_to_other_type_fix.diff.
+// On the unchanged /repo exactly the obligations of those two findings fail (NOTES.md). A third divergence has no small
+// repair and is a named deviation: DEV_GUARD_REFUSAL_CACHED (findings/guard_refusal_cached.md) -- "the uncached computation
+// for a key" depends on the chain of loads in progress (recursion guard); (c) is proved unconditionally relative to the chain
+// of the load that STORED the entry (`answers_as_uncached_load`) and relative to the current chain for loads on which the
+// guard is silent (`answers_as_uncached_now`).
+//
 // MODEL (R1/R2/R8) -- say exactly what is dropped:
 //   * INTERIOR MUTABILITY. `StorageResolver { storage: &'a Storage, chain: Mutex<Vec<_>> }` mutates the caches and the chain
 //     behind `&self`. Model: the resolver OWNS the storage (`storage: Storage`) and every method takes `&mut self`; the
@@ -50,6 +57,7 @@ verus! {
 global size_of usize == 8;
 
 //@@ PDFERROR
+//@@ DEVIATIONS
 
 // ---- env types (not under proof) ------------------------------------------------------------------------------------
 pub type ObjNr = u64;
@@ -179,6 +187,12 @@ pub open spec fn erased_rc<T>(out: Result<RcRef<T>>) -> Result<Erased> {
 pub open spec fn guard_silent(doc: Doc, key: PlainRef, t: int) -> bool {
     forall|c1: Seq<PlainRef>, c2: Seq<PlainRef>| c1.len() > 0 && c1.last() == key && c2.len() > 0 && c2.last() == key
         ==> same_answer(#[trigger] load_erased(doc, key, t, c1), #[trigger] load_erased(doc, key, t, c2))
+}
+
+/// DEV_GUARD_REFUSAL_CACHED on: the claim "answers as the uncached document answers NOW" is made only for loads the
+/// recursion guard does not interfere with. Off: it is made for every load -- and fails (findings/guard_refusal_cached.md).
+pub open spec fn guard_hypothesis(doc: Doc, key: PlainRef, t: int) -> bool {
+    DEV_GUARD_REFUSAL_CACHED() ==> guard_silent(doc, key, t)
 }
 
 /// the decode of a stream: file.rs Storage::decode (its meaning -- decrypt, then the filters in array order -- is
